@@ -25,6 +25,12 @@ TRUSTED = [
     "extraction (ExtrOcamlBasic only) + OCaml 4.13.1 + coq/extract/c16_driver.ml (parsing/printing)",
     "harness/c16.cpp dump routine; g++ ASan/UBSan/_GLIBCXX_ASSERTIONS as the memory-safety observer",
     "Dn is read from the real constructor at run time (double log() quotient not modelled in Coq)",
+    "translate/t_heapstate.py (clang-query-14 over a TU including only utils/fibonacci_heap.hpp, vlib's flags): "
+    "trusted to list data members and static-storage objects; self-test in the thorough tier seeds a static local, "
+    "a static member and a new member into a scratch copy and must see each",
+    "several heaps at once: each thread checks its own heap against a reference map (harness command P); the "
+    "C++ memory model / scheduler decide which interleavings are seen (a clean run is not a proof of independence; "
+    "fh_state_is_own_record is the structural argument)",
 ]
 
 
@@ -505,12 +511,62 @@ def concurrent_heaps(ctx, exe, rng, stats, quick):
     return len(confs)
 
 
+def heap_state_obligation(ctx, stats):
+    """T-heapstate: regenerate the table of data members / static-storage objects of fibonacci_heap.hpp from
+    ctx.repo; it must equal coq/gen/HeapState.v (over which fh_state_is_own_record is proved), or else the
+    obligation heap_state_ok is re-checked by coqc on the regenerated table."""
+    import os
+    import shutil
+    import subprocess
+    import sys
+    sys.path.insert(0, os.path.join(ctx.verif, "translate"))
+    import t_heapstate
+    wd = os.path.join(ctx.build, "t_heapstate")
+    shutil.rmtree(wd, ignore_errors=True)
+    os.makedirs(wd)
+    try:
+        fields, statics, text = t_heapstate.generate(ctx.repo, workdir=wd)
+    except Exception as ex:
+        ctx.unshown("T-heapstate cannot read utils/fibonacci_heap.hpp of this tree: " + str(ex)[-500:])
+        stats["heap_state"] = "unreadable"
+        return
+    committed = open(os.path.join(ctx.verif, "coq", "gen", "HeapState.v")).read()
+    stats["heap_state"] = {"fields": len(fields), "statics": len(statics), "unchanged": text == committed}
+    if text == committed:
+        return
+    gdir = os.path.join(ctx.build, "gen")
+    shutil.rmtree(gdir, ignore_errors=True)
+    os.makedirs(gdir)
+    open(os.path.join(gdir, "HeapStateNew.v"), "w").write(text)
+    open(os.path.join(gdir, "HeapStateObl.v"), "w").write(
+        "From TK Require Import FibHeap_State.\nFrom TKGEN Require Import HeapStateNew.\n"
+        "Example regenerated_state_ok : heap_state_ok HeapStateNew.heap_fields HeapStateNew.heap_statics = true.\n"
+        "Proof. vm_compute. reflexivity. Qed.\n")
+    ok, log = True, ""
+    for f in ("HeapStateNew.v", "HeapStateObl.v"):
+        p = subprocess.run(["coqc", "-Q", os.path.join(ctx.verif, "coq"), "TK", "-Q", gdir, "TKGEN", "-w", "-all", f],
+                           cwd=gdir, capture_output=True, text=True, timeout=300)
+        if p.returncode != 0:
+            ok, log = False, p.stderr[-300:]
+            break
+    if ok:
+        ctx.note("T-heapstate: the table changed (types / spelling) but heap_state_ok holds on the regenerated table")
+        return
+    import re
+    old = set(re.findall(r'\("([^"]*)", "([^"]*)", "([^"]*)"\)', committed))
+    new = set(fields) | set(statics)
+    ctx.unshown("fh_state_is_own_record: the heap no longer keeps its state in the members the abstraction accounts "
+                "for: added %s removed %s — fh_refines_map no longer speaks about programs with several heaps "
+                "(statics) / about the whole state (members)" % (sorted(new - old)[:5], sorted(old - new)[:5]))
+
+
 def run(ctx):
     rng = ctx.rng
     coq = ctx.coq()
     exe = ctx.cpp("harness/c16.cpp")
     mexe = ctx.extract()
     stats = {"max_rank": 0}
+    heap_state_obligation(ctx, stats)
     hist = {"corpus": 0, "random": 0, "thin": 0, "dijkstra": 0, "extreme_keys": 0, "exhaustive": 0}
     cases = []
     for name, c in ctx.corpus():
@@ -564,6 +620,18 @@ def run(ctx):
     for c in cases:
         for o in c["ops"]:
             ops_hist[o[0]] = ops_hist.get(o[0], 0) + 1
+    if not quick:
+        import sys as _sys
+        import os as _os
+        _sys.path.insert(0, _os.path.join(ctx.verif, "translate"))
+        import t_heapstate
+        try:
+            st = t_heapstate.selftest(ctx.repo)
+        except Exception as ex:
+            st = {"error": str(ex)[:200]}
+        stats["heap_state_selftest"] = st
+        if any(v != "ok" for v in st.values()):
+            ctx.unshown("T-heapstate self-test: the translator does not see a seeded static / member: %s" % st)
     coqchk = None
     if not quick and coq.ok:
         # independent re-check of the compiled proofs (and everything they depend on) + the axioms they rely on
